@@ -9,7 +9,7 @@ def step (_ : Unit) (line : String) : Unit × String :=
   match words op with
   | "race" :: _ =>
     if impl == "clean" || impl == "" then ((), "clean ||| ok")
-    else if impl == "no-race-binary" then ((), "clean ||| ok")
+    else if impl == "no-race-binary" then ((), impl ++ " ||| bad:C20:C20:race-detector-build-missing")
     else
       let items := (impl.splitOn ",").filter (· ≠ "")
       let ds := items.map fun it =>
@@ -18,7 +18,8 @@ def step (_ : Unit) (line : String) : Unit × String :=
         else if it.startsWith "panic:" then "C20:crash " ++ (it.drop 6).toString
         else if it.startsWith "crash:" then "C20:crash " ++ (it.drop 6).toString
         else "C20:" ++ it
-      ((), "clean ||| bad:C20:" ++ "; ".intercalate ds)
+      -- the run is the search: its report is echoed, the verdict carries one failure detail per item
+      ((), impl ++ " ||| bad:C20:" ++ "; ".intercalate ds)
   | _ => ((), "bad-op")
 
 end PC.Drv.Race
